@@ -35,7 +35,8 @@ SCHEMA = {
     },
     "HvsrTraditional": {
         "valid_peak_boolean_mask": "boolarr", "valid_window_boolean_mask": "boolarr",
-        "_main_peak_frq": "arr", "_main_peak_amp": "arr", "n_curves": "int", "amplitude": "arr2",
+        "_main_peak_frq": "arr", "_main_peak_amp": "arr", "n_curves": "int", "amplitude": "arr2", "frequency": "arr",
+        "meta": ("derived", lambda ex, st, o: _opaque_meta(o)),
     },
     "SeismicRecording3C": {
         "ns": ("obj", "TimeSeries"), "ew": ("obj", "TimeSeries"), "vt": ("obj", "TimeSeries"),
